@@ -19,7 +19,7 @@ ASSUMPTIONS = ["elements of the two collections are of one type (str or int)", "
 EXHAUSTIVE = {"quick": ["every vector of length 1..4 with entries 0..7 (4680 vectors) x {list, ndarray}"],
               "thorough": ["every vector of length 1..4 with entries 0..9 (11110 vectors) x {list, ndarray}", "every pair of subsets of a 4-element universe for the three set functions"]}
 REQUIRE = {"tuple_element_cases": 4, "infinite_element_cases": 4, "vectors_checked": 4000, "f2_zero_vectors": 500, "f2_absent_vectors": 8, "var_defined_checked": 2000, "nan_cases_checked": 500,
-           "set_cases": 41, "set_input_cases": 10, "series_with_missing_cases": 3, "list_with_missing_cases": 7, "duplicate_cases": 20}
+           "set_cases": 41, "set_input_cases": 10, "series_with_missing_cases": 3, "list_with_missing_cases": 7, "duplicate_cases": 20, "sorted_numeric_duplicate_cases": 25}
 SHARDS = {"quick": 4, "thorough": 8}
 
 
@@ -132,7 +132,7 @@ def _clean(xs):
     return {x for x in xs if x is not None and not (isinstance(x, float) and x != x)}
 
 
-def k_sets(ctx, a, b, ka, kb):
+def k_sets(ctx, a, b, ka, kb, sorted_dup=False):
     """a, b: lists possibly with duplicates and missing markers (None / 'NaN' string token replaced by float nan)."""
     import pyrepseq as prs
     nan = float("nan")
@@ -151,6 +151,8 @@ def k_sets(ctx, a, b, ka, kb):
     miss = any(x is None or x == "__nan__" for x in a + b)
     SA, SB = _clean(A), _clean(B)
     ctx.count("set_cases")
+    if sorted_dup:
+        ctx.count("sorted_numeric_duplicate_cases")
     if "set" in (ka, kb):
         ctx.count("set_input_cases")
     if miss and ("series" in (ka, kb) or "series_float" in (ka, kb)):
@@ -232,6 +234,10 @@ def generate(tier, seed):
         yield "sets", {"a": pa, "b": pb, "ka": ka, "kb": kb}, True
         yield "sets", {"a": pa, "b": pb + [["CAVRD", "CASSLGF"]], "ka": ka, "kb": kb}, True
     yield "sets", {"a": ["x", "y", "y"], "b": ["y", None, "z"], "ka": "list", "kb": "series"}, True
+    # numeric collections already in non-decreasing order with repeated values (merge-style fast paths)
+    for ka, kb in (("list", "list"), ("series_float", "series_float"), ("ndarray_float", "list"), ("tuple", "ndarray"), ("series", "series")):
+        for a, b in (([1, 1, 2], [3, 4]), ([1, 2, 2, 3], [2, 3]), ([0, 0, 0], [0, 0]), ([1, 2, 3, 3, 3, 9], [3, 3, 4, 9, 9]), ([2.5, 2.5, 7.0], [1.0, 2.5, 2.5, 2.5])):
+            yield "sets", {"a": a, "b": b, "ka": ka, "kb": kb, "sorted_dup": True}, True
     if thorough:
         uni = ["p", "q", "r", "s"]
         subs = [list(c) for n in range(0, 5) for c in itertools.combinations(uni, n)]
